@@ -58,4 +58,35 @@ even possible to express: here is a successful decode whose allocation is out of
 example : ∃ bs v al r, decA (.list none true .unit) bs = .ok ((v, al), r) ∧ bs.length = 4 ∧ al = 3 := by
   refine ⟨[0, 0, 0, 3], _, _, _, rfl, rfl, rfl⟩
 
+/-- The reflective reader on slices and structs (what a user's `CustomMessageReader` calls), as
+repaired: no container is sized from the wire count, so the allocation bound applies to every
+destination type of the table. -/
+theorem C13_reflective_capped (name : String) (t : Ty) (h : (reflTable false).lookup name = some t) :
+    capped t = true := by
+  have hm := lookup_mem _ _ _ h
+  have hall : ∀ x ∈ (reflTable false).map (·.2), capped x = true := by decide
+  exact hall t hm
+
+/-- The code as found pre-sized the slice from the wire count: uncapped, and four bytes are enough
+to make it "allocate" any amount (witness for the finding repaired by the `fix:` commit). -/
+theorem C13_reflective_presized_witness :
+    (∀ x ∈ (reflTable true).map (·.2), capped x = false) ∧
+    ∃ bs v al r, decA (.list none true (.pair .u32 .bytes)) bs = .ok ((v, al), r) ∧ bs.length = 4 + 8 * 2 ∧ al = 2 := by
+  refine ⟨by decide, [0, 0, 0, 2, 0, 0, 0, 7, 0, 0, 0, 0, 0, 0, 0, 9, 0, 0, 0, 0], _, _, _, rfl, rfl, rfl⟩
+
+/-- A failed decode leaves the destination as it was — the specification the engine's `rflinto`
+operation compares the real reader with (the Go side also compares every backing array reachable
+from the old value). -/
+def decInto (t : Ty) (dst : V) (bs : Bytes) : V × Bool :=
+  match dec t bs with
+  | .ok (v, _) => (v, true)
+  | .err => (dst, false)
+
+theorem C13_failed_decode_keeps_destination (t : Ty) (dst : V) (bs : Bytes) (h : (decInto t dst bs).2 = false) :
+    (decInto t dst bs).1 = dst := by
+  unfold decInto at *
+  cases hd : dec t bs with
+  | ok p => rw [hd] at h; simp at h
+  | err => rfl
+
 end Vivid.Codec
